@@ -221,6 +221,20 @@ class Interp:
                 return bcast(lambda x, y: sp.Min(x, y), o, self.ev(a[0]))
             if name == "pow" and len(a) == 1:
                 return bcast(lambda x, y: x ** y, o, self.ev(a[0]))
+            if name in ("maxCoeff", "minCoeff") and len(a) == 1 and is_arr(o) and all(sp.sympify(x).is_number for x in o):
+                # concrete values: also report the position through the out-parameter (first extremum, like Eigen)
+                tgt = self.ev(a[0])
+                vals_ = [sp.sympify(x) for x in o]
+                best = max(vals_) if name == "maxCoeff" else min(vals_)
+                if isinstance(tgt, tuple) and tgt and tgt[0] == "addr":
+                    self.lvalue_set(tgt[1], lambda old: sp.Integer(vals_.index(best)))
+                    return best
+                raise OutOfFragment("maxCoeff with an unknown out-parameter")
+            if name == "count" and not a and is_arr(o):
+                tr = [truth(x) for x in o]
+                if any(x is None for x in tr):
+                    raise OutOfFragment("count() of undecided conditions")
+                return sp.Integer(sum(1 for x in tr if x))
             if name == "maxCoeff" and getattr(self, "allow_shift", False):
                 # the shift of a log-sum-exp: any value gives the same result; kept as an independent symbol
                 return sym("omax")
@@ -270,7 +284,7 @@ class Interp:
         if q == "std::pow" and len(vals) == 2:
             return bcast(lambda x, y: x ** y, vals[0], vals[1])
         if q == "std::numeric_limits::epsilon":
-            return sym("tiny_eps", positive=True)
+            return sp.Rational(1, 2 ** 52) if getattr(self, "concrete_eps", False) else sym("tiny_eps", positive=True)
         if q in ("std::move", "std::forward") and len(vals) == 1:
             return vals[0]
         if q in ("std::make_tuple", "std::make_pair"):
